@@ -820,6 +820,90 @@ func (r *refactorer) shorthandCase() bool {
 	return true
 }
 
+// aliasGroupings gives groupings that live in scopes of which neither encloses the other the same name (each is only
+// visible in its own scope, so the names do not clash; every uses keeps meaning the grouping it meant).
+func (r *refactorer) aliasGroupings() {
+	type scoped struct{ g, scope *yst }
+	var all []scoped
+	var walk func(s *yst)
+	walk = func(s *yst) {
+		for _, k := range s.Kids {
+			if k.Kw == "grouping" && s.Kw != "module" && s.Kw != "submodule" {
+				all = append(all, scoped{k, s})
+			}
+			walk(k)
+		}
+	}
+	walk(r.mod)
+	var within func(outer, x *yst) bool
+	within = func(outer, x *yst) bool {
+		if outer == x {
+			return true
+		}
+		for _, k := range outer.Kids {
+			if within(k, x) {
+				return true
+			}
+		}
+		return false
+	}
+	var rename func(s *yst, from, to string)
+	rename = func(s *yst, from, to string) {
+		for _, k := range s.Kids {
+			if k.Kw == "uses" && k.Arg == from {
+				k.Arg = to
+			}
+			rename(k, from, to)
+		}
+	}
+	for i := 1; i < len(all); i++ {
+		a := all[i]
+		for _, b := range all[:i] {
+			if a.g.Arg == b.g.Arg || within(a.scope, b.scope) || within(b.scope, a.scope) {
+				continue
+			}
+			// no grouping of b's name may be visible in, or defined below, a's scope
+			clash := false
+			for _, c := range all {
+				if c.g != a.g && c.g.Arg == b.g.Arg && (within(a.scope, c.scope) || within(c.scope, a.scope)) {
+					clash = true
+				}
+			}
+			if clash || rapid.IntRange(0, 1).Draw(r.t, "alias-grouping") == 0 {
+				continue
+			}
+			rename(a.scope, a.g.Arg, b.g.Arg)
+			a.g.Arg = b.g.Arg
+			r.steps = append(r.steps, "same-name-other-scope")
+			break
+		}
+	}
+}
+
+// respellAugments writes the steps of module-level augment paths with or without the module's own prefix, step by step.
+func (r *refactorer) respellAugments() {
+	files := append([]*yst{r.mod}, r.subs...)
+	for _, f := range files {
+		for _, k := range f.Kids {
+			if k.Kw != "augment" || !strings.HasPrefix(k.Arg, "/") {
+				continue
+			}
+			steps := strings.Split(k.Arg[1:], "/")
+			changed := false
+			for i, st := range steps {
+				if !strings.Contains(st, ":") && rapid.IntRange(0, 2).Draw(r.t, "own-prefix") == 0 {
+					steps[i] = "m:" + st
+					changed = true
+				}
+			}
+			if changed {
+				k.Arg = "/" + strings.Join(steps, "/")
+				r.steps = append(r.steps, "augment-path-own-prefix")
+			}
+		}
+	}
+}
+
 func c01Header(name string) []*yst {
 	return []*yst{st("namespace", "urn:"+name), st("prefix", "m"), st("feature", "fa"), st("feature", "fb"), st("typedef", "tdef", st("type", "int32"))}
 }
@@ -920,6 +1004,8 @@ func c01Gen0(t *rapid.T) c01Case {
 			r.reuseGrouping()
 		}
 	}
+	r.aliasGroupings()
+	r.respellAugments()
 	files := map[string]string{}
 	var b strings.Builder
 	r.mod.render(&b, "")
